@@ -322,3 +322,38 @@ def _create_interrupt_action(self, exception):
     ensures('only_pause_or_kill', isinstance(exception, PauseInterruption) or isinstance(exception, KillInterruption))
     raises(ValueError, not (isinstance(exception, PauseInterruption) or isinstance(exception, KillInterruption)))
     replay('fresh_pending_action', 'control_histories')
+
+
+# ------------------------------------------------------------------------------------------------ the process's own checkpoint (C07, C08)
+@contract('plumpy.processes.Process.save_instance_state', props=['C07', 'C08'], ghost=['M', 'K'])
+def process_save(self, out_state, save_context, M=None, K=None):
+    """a process's checkpoint: every declared member (M: any of them), the state through its own save(), the raw and the parsed
+    inputs exactly when they exist (None is not recorded, an EMPTY mapping is), the outputs when there are any -- each as a copy"""
+    requires(M == '_pid' or M == '_creation_time' or M == '_future' or M == '_paused' or M == '_status' or M == '_pre_paused_status'
+             or M == '_event_helper')
+    requires(K == '_state' or K == 'INPUTS_RAW' or K == 'INPUTS_PARSED' or K == 'OUTPUTS')
+    requires(type_is(self, Process) and is_dict(out_state) and wf_state(out_state))
+    requires(not dhas(out_state, '_state') and not dhas(out_state, 'INPUTS_RAW') and not dhas(out_state, 'INPUTS_PARSED') and not dhas(out_state, 'OUTPUTS'))
+    requires(isinstance(self._state, plumpy.process_states.State) and is_dict(self._outputs))
+    raw = self._raw_inputs
+    parsed = self._parsed_inputs
+    outs = self._outputs
+    state = self._state
+    modifies(contents(out_state), contents(dget(out_state, '!!meta'), when=dhas(out_state, '!!meta')),
+             contents(dget(dget(out_state, '!!meta'), 'types'), when=dhas(out_state, '!!meta') and dhas(dget(out_state, '!!meta'), 'types')),
+             ghost('LASTSAVED'), self._persist_configured)
+    ensures('members_recorded', saved_member(self, out_state, M, attr(self, M)))
+    # (K ranges over the four keys: each clause is proved for the instance of the member machinery's frame it needs)
+    ensures('state_recorded_through_its_own_save', dhas(out_state, '_state') and uf('saved_of', dget(out_state, '_state')) is state)
+    ensures('raw_inputs_recorded_iff_they_exist', implies(K == 'INPUTS_RAW', dhas(out_state, 'INPUTS_RAW') == (raw is not None)
+                                                         and implies(raw is not None, copied(dget(out_state, 'INPUTS_RAW'), raw))))
+    ensures('parsed_inputs_recorded_iff_they_exist', implies(K == 'INPUTS_PARSED', dhas(out_state, 'INPUTS_PARSED') == (parsed is not None)
+                                                            and implies(parsed is not None, copied(dget(out_state, 'INPUTS_PARSED'), parsed))))
+    ensures('outputs_recorded_when_there_are_any', implies(K == 'OUTPUTS', dhas(out_state, 'OUTPUTS') == (dlen(outs) > 0)
+                                                          and implies(dlen(outs) > 0, copied(dget(out_state, 'OUTPUTS'), outs))))
+    raises(Exception, True)
+    replay('members_recorded', 'bundle_roundtrip')
+    replay('state_recorded_through_its_own_save', 'bundle_roundtrip')
+    replay('raw_inputs_recorded_iff_they_exist', 'bundle_roundtrip')
+    replay('parsed_inputs_recorded_iff_they_exist', 'bundle_roundtrip')
+    replay('outputs_recorded_when_there_are_any', 'bundle_roundtrip')
